@@ -303,6 +303,12 @@ SFBeginUnlockAll(o) ==
     /\ BeginUnlockAll(o)
     /\ UNCHANGED sfvars
 
+\* MsgForceUnlock (owners on the lockup parameter list): refused like every other withdrawal while the lock is held
+SFForce(id, o, c, nid, allowed) ==
+    /\ id \in Ids => MarkersOf(id) = {}
+    /\ ForceUnlock(id, o, c, nid, allowed)
+    /\ UNCHANGED sfvars
+
 SFExtend(id, o, nd) ==
     /\ id \in Ids => MarkersOf(id) = {}
     /\ ExtendLockup(id, o, nd)
